@@ -9,7 +9,9 @@ A case is a SESSION: one state object and one or more consecutive `fit` calls on
 (container form incl. non-contiguous views), bases (new object / the same object again / the same object edited in place),
 batch sizes and epochs; every batch of every call is compared with the model fed the data of THAT call."""
 import collections
+import contextlib
 import copy
+import io
 
 import numpy as np
 
@@ -21,12 +23,14 @@ FILES = [
     "qucumber/utils/data.py",
 ]
 REQUIRED_THEOREMS = ["C07_partition", "C07_own_basis", "C07_sizes", "C07_zip_truncation", "C07_negative", "C07_refbasis",
-                     "C07_fit_batches", "C07_no_mutation", "C07_fit_epoch"]
+                     "C07_fit_batches", "C07_no_mutation", "C07_fit_epoch", "C07_positional_call"]
 RULE = ("case = session on one state object (kind [positive: no bases; complex/density: bases], n) of 1..3 consecutive fit calls, "
         "each call = (N, pos_batch_size B, neg_batch_size in {None, 0, B, other incl. > B and > N}, epochs 1..3, data container in "
         "{tensor(double/float32/int64/uint8), non-contiguous tensor views (transposed / strided with offset), ndarray(float64/"
         "float32/int64, Fortran order, strided view), list, tuple}, rows 0/1 with forced duplicates, bases over {X,Y,Z} with >= 1 "
-        "all-Z row as C-order / Fortran-order / strided-view array; data object and bases object of a later call: new / the same "
+        "all-Z row (optionally also user-registered letters of 1-2 characters, state built with unitary_dict=, incl. a row that is all Z but one "
+        "site) as C-order / Fortran-order / strided-view array; call form: the first j = 1..15 documented parameters positionally, the rest by "
+        "keyword, k and starting_epoch varied; data object and bases object of a later call: new / the same "
         "object again / the same object overwritten in place); covers N < B, N = mB, N = mB + r; thorough enumerates single calls "
         "N <= 12 x B <= 13 x neg in {None, B, other}; plus a malformed stream (B = 0, no reference-basis row, bases of the wrong "
         "length, also as the second call of a session: outside the quantifier, informational counters only) and direct `_shuffle_data` calls "
@@ -40,13 +44,28 @@ EXTRA_TRUSTED = [
 
 
 # ------------------------------------------------------------------ helpers
-def make_state(kind, n, rng):
+def user_unitary(theta, phi):
+    """a 2x2 unitary in the library's [real, imag] layout: [[cos t, e^{i phi} sin t], [e^{-i phi} sin t, -cos t]]"""
+    import math
+
+    c, s_ = math.cos(theta), math.sin(theta)
+    return torch.tensor([[[c, math.cos(phi) * s_], [math.cos(phi) * s_, -c]], [[0.0, math.sin(phi) * s_], [-math.sin(phi) * s_, 0.0]]], dtype=torch.double)
+
+
+def make_state(kind, n, rng, letters=None):
+    """`letters` = [{"name", "theta", "phi"}]: basis letters the user registers next to X/Y/Z through the public `unitary_dict=` argument
+    (`unitaries.create_dict(name=matrix)`); measurement bases of the training data may then use them"""
     h = rng.choice([1, 2])
     if kind == "pos":
         return qc.make_positive(n, h, qc.rand_rbm_params(rng, n, h, 0.5))
+    ud = None
+    if letters:
+        from qucumber.utils import unitaries
+
+        ud = unitaries.create_dict(**{L["name"]: user_unitary(L["theta"], L["phi"]) for L in letters})
     if kind == "cplx":
-        return qc.make_complex(n, h, qc.rand_rbm_params(rng, n, h, 0.5), qc.rand_rbm_params(rng, n, h, 0.5))
-    return qc.make_density(n, h, 1, qc.rand_prbm_params(rng, n, h, 1, 0.5), qc.rand_prbm_params(rng, n, h, 1, 0.5))
+        return qc.make_complex(n, h, qc.rand_rbm_params(rng, n, h, 0.5), qc.rand_rbm_params(rng, n, h, 0.5), unitary_dict=ud)
+    return qc.make_density(n, h, 1, qc.rand_prbm_params(rng, n, h, 1, 0.5), qc.rand_prbm_params(rng, n, h, 1, 0.5), unitary_dict=ud)
 
 
 def container(data, form):
@@ -94,8 +113,8 @@ def overwrite(obj, data):
     return False
 
 
-def bases_container(bases, form):
-    a = np.array(bases)
+def bases_container(bases, form, width=1):
+    a = np.array(bases, dtype=f"<U{max(1, width)}")  # one dtype per session: a later in-place edit must not truncate a longer user letter
     if form == "fortran":
         return np.asfortranarray(a)
     if form == "strided":
@@ -259,8 +278,65 @@ def effect_oracle(data, bases, B, negB_eff, mirror, batches):
     return True, None
 
 
+# ------------------------------------------------------------------ call forms: the documented parameter order of `fit`
+# (docstring / signature of the three public `fit` methods as documented; NOT read from the implementation under test)
+DOC_ORDER = {
+    False: ["data", "epochs", "pos_batch_size", "neg_batch_size", "k", "lr", "progbar", "starting_epoch", "time", "callbacks", "optimizer",
+            "optimizer_args", "scheduler", "scheduler_args"],
+    True: ["data", "epochs", "pos_batch_size", "neg_batch_size", "k", "lr", "input_bases", "progbar", "starting_epoch", "time", "callbacks",
+           "optimizer", "optimizer_args", "scheduler", "scheduler_args"],
+}
+REFS = {"data": 10, "lr": 11, "input_bases": 12, "callbacks": 13, "optimizer": 14}
+
+
+def call_arguments(kind, run, data_obj, bases_obj, callbacks):
+    """(positional arguments, keyword arguments, the same call on the wire for the model's binder `c07.bind`).
+    `run["npos"]` = number of leading documented parameters given POSITIONALLY (1 = only `data`, the usual keyword call); the remaining
+    explicitly chosen ones are keywords. A `defaults` run passes nothing but data, callbacks and (with bases) input_bases."""
+    has_bases = kind != "pos"
+    start = run.get("start", 1)
+    if run.get("defaults"):
+        named = {"data": data_obj, "callbacks": callbacks}
+        if has_bases:
+            named["input_bases"] = bases_obj
+        explicit = set(named)
+    else:
+        named = {"data": data_obj, "epochs": start + run["epochs"] - 1, "pos_batch_size": run["B"], "neg_batch_size": run["neg"], "k": run.get("k", 1),
+                 "lr": 0.01, "progbar": False, "starting_epoch": start, "time": False, "callbacks": callbacks, "optimizer": torch.optim.SGD,
+                 "optimizer_args": None, "scheduler": None, "scheduler_args": None}
+        explicit = {"data", "epochs", "pos_batch_size", "neg_batch_size", "k", "lr", "progbar", "callbacks"} | ({"starting_epoch"} if start != 1 else set())
+        if has_bases:
+            named["input_bases"] = bases_obj
+            explicit.add("input_bases")
+    order = DOC_ORDER[has_bases]
+    npos = max(1, min(run.get("npos", 1), len(order)))
+    if run.get("defaults"):
+        npos = 1
+    pos_names = order[:npos]
+    pos_args = [named[nm] for nm in pos_names]
+    kw_args = {nm: named[nm] for nm in order[npos:] if nm in explicit}
+
+    def enc(nm, v):
+        if nm in REFS:
+            return {"ref": REFS[nm]}
+        return v  # None / bool / int
+
+    wire = {"has_bases": has_bases, "pos": [enc(nm, named[nm]) for nm in pos_names], "kw": [[nm, enc(nm, v)] for nm, v in kw_args.items()]}
+    return pos_args, kw_args, wire
+
+
+def bound_config(ctx, wire):
+    """the configuration the MODEL's binder (QV.CallForm.fitBind, theorem C07_positional_call) derives from the call as written"""
+    m = ctx.driver.call("c07.bind", **wire)
+    if "error" in m:
+        return None
+    b = m["bound"]
+    return {"epochs": b["epochs"], "B": b["pos_batch_size"], "neg": b["neg_batch_size"], "k": b["k"], "start": b["starting_epoch"],
+            "bases": b["input_bases"] is not None}
+
+
 # ------------------------------------------------------------------ one session = consecutive fit calls on one state object
-RUN_KEYS = ("N", "B", "neg", "epochs", "form", "data", "bases", "malformed", "defaults")
+RUN_KEYS = ("N", "B", "neg", "epochs", "form", "data", "bases", "malformed", "defaults", "npos", "k", "start", "bases_form")
 
 
 def as_session(case):
@@ -268,7 +344,7 @@ def as_session(case):
     if "runs" in case:
         return case
     run = {k: case[k] for k in RUN_KEYS if k in case}
-    return {"kind": case["kind"], "n": case["n"], "runs": [run], "dseed": case["dseed"], "what": "fit"}
+    return {"kind": case["kind"], "n": case["n"], "runs": [run], "dseed": case["dseed"], "what": "fit", "letters": case.get("letters")}
 
 
 def one_fit(ctx, case):
@@ -278,11 +354,14 @@ def one_fit(ctx, case):
     ctx.current_case = case
     kind, n, runs = case["kind"], case["n"], case["runs"]
     rng = random.Random(case["dseed"])
-    st = make_state(kind, n, rng)
+    letters = case.get("letters") or []
+    st = make_state(kind, n, rng, letters)
     torch.manual_seed(case["dseed"])
     desc = {k: case[k] for k in case if k != "dseed"}
-    state = {"data_obj": None, "bases_obj": None, "data": None, "bases": None, "nontriv": False, "perm0": None}
+    state = {"data_obj": None, "bases_obj": None, "data": None, "bases": None, "nontriv": False, "perm0": None,
+             "width": max([1] + [len(L["name"]) for L in letters])}
     ctx.count(f"calls_per_session={len(runs)}")
+    ctx.count("basis alphabet=" + ("X/Y/Z only" if not letters else "X/Y/Z + user-registered letters (unitary_dict=)"))
     for r_idx, run in enumerate(runs):
         one_call(ctx, {**case, "run": r_idx}, st, kind, run, r_idx, state)
     r0 = runs[0]
@@ -310,11 +389,11 @@ def caller_objects(run, state):
         if mode_b == "same" and prev_b is not None and state["bases"] == bases:
             bases_obj = prev_b
         elif mode_b == "inplace" and prev_b is not None and same_shape_b:
-            prev_b[...] = np.array(bases)
+            prev_b[...] = np.array(bases, dtype=prev_b.dtype)
             bases_obj = prev_b
         else:
             mode_b = "new"
-            bases_obj = bases_container(bases, run.get("bases_form", "c"))
+            bases_obj = bases_container(bases, run.get("bases_form", "c"), state.get("width", 1))
     state.update(data_obj=data_obj, bases_obj=bases_obj, data=copy.deepcopy(data), bases=copy.deepcopy(bases))
     return data_obj, bases_obj, mode_d, mode_b
 
@@ -342,12 +421,10 @@ def one_call(ctx, case, st, kind, run, r_idx, state):
 
     marks = LambdaCallback(on_epoch_start=lambda s_, e_: rec.log.append(("epoch", int(e_))))
     rec.install()
+    pos_args, kw_args, wire = call_arguments(kind, run, data_obj, bases_obj, [marks])
     try:
-        kw = {"input_bases": bases_obj} if kind != "pos" else {}
-        if run.get("defaults"):  # the documented default call: fit(data[, input_bases=...]) -> pos_batch_size=100, neg=None, epochs=100, k=1
-            st.fit(data_obj, callbacks=[marks], **kw)
-        else:
-            st.fit(data_obj, epochs=epochs, pos_batch_size=B, neg_batch_size=neg, k=1, lr=0.01, progbar=False, callbacks=[marks], **kw)
+        with contextlib.redirect_stderr(io.StringIO()):  # a progress bar (should one appear) must not garble the verdict lines
+            st.fit(*pos_args, **kw_args)
     except Exception as e:
         err = type(e).__name__
     finally:
@@ -402,6 +479,13 @@ def one_call(ctx, case, st, kind, run, r_idx, state):
                 f"dup_rows={len({tuple(r) for r in data}) < N}", f"call#{r_idx}:data_obj={mode_d}"):
         ctx.count(key)
     ctx.count("call form=" + ("fit(data) with every option defaulted" if run.get("defaults") else "explicit batch sizes / epochs"))
+    npos = len(pos_args)
+    ctx.count("positional arguments (documented order): " + ("data only" if npos == 1 else ("through " + DOC_ORDER[kind != "pos"][npos - 1])))
+    ctx.count(f"k={run.get('k', 1)}"); ctx.count(f"starting_epoch={run.get('start', 1)}")
+    if bases is not None and any(c not in ("X", "Y", "Z") for r_ in bases for c in r_):
+        ctx.count("bases of this call use a user-registered letter")
+        if any(all(c == "Z" for c in r_) is False and all(c not in ("X", "Y") for c in r_) for r_ in bases):
+            ctx.count("  ... in a row whose other sites are all Z (not a reference-basis row)")
     if bases is not None:
         ctx.count(f"call#{r_idx}:bases_obj={mode_b}")
         ctx.count(f"bases_form={run.get('bases_form', 'c')}")
@@ -411,7 +495,9 @@ def one_call(ctx, case, st, kind, run, r_idx, state):
     # ---- oracles on the implementation
     if not expect_error:
         ctx.oracle("fit raised", err is None, case, detail=err, sig=f"{sig}/exception")
-        ctx.oracle("one pass over the data per requested epoch", len(eps) == epochs, case, detail={"epochs_run": len(eps), "requested": epochs}, sig=f"{sig}/epochs")
+        ctx.oracle("one pass over the data per requested epoch (epochs starting_epoch..epochs)", len(eps) == epochs, case,
+                   detail={"epochs_run": len(eps), "requested": epochs, "starting_epoch": run.get("start", 1)}, sig=f"{sig}/epochs",
+                   theorem="C07_positional_call")
         ctx.count("random draws consumed as modelled (one randperm, at most one randint per epoch)" if scripted else
                   "random draws NOT consumed as modelled: scripted comparison with the model skipped, verdict from the effect oracle")
         for e_i, ep in enumerate(eps):
@@ -456,9 +542,18 @@ def one_call(ctx, case, st, kind, run, r_idx, state):
                       [[en[0] for en in ep["rng"]][:6] for ep in eps][:3], [["perm"], ["perm", "randint"]], case, exact=True,
                       sig=f"{kind}/rng-not-consumed-as-modelled", theorem="C07_fit_batches")
         return
+    # the configuration as the MODEL's binder derives it from the call as written (positional prefix in the documented order + keywords +
+    # documented defaults; C07_positional_call): the batching model below is fed THESE values
+    cfg = bound_config(ctx, wire)
+    intended = {"epochs": run.get("start", 1) + epochs - 1, "B": B, "neg": neg, "k": run.get("k", 1), "start": run.get("start", 1), "bases": bases is not None}
+    ctx.point("model binding of the call (QV.CallForm.fitBind) gives the configuration the case wrote at the documented positions", "aux", intended, cfg,
+              case, exact=True, sig=f"{kind}/call-binding-model", theorem="C07_positional_call")
+    if cfg is None:
+        return
+    B_m, neg_m = cfg["B"], cfg["neg"]
     if expect_error:
         perm = (eps[0]["perm"] if eps and eps[0]["perm"] else None) or list(range(N))
-        m = ctx.driver.call("c07.epoch", data=data, bases=bases, posB=B, negB=neg, perm=perm, negIdx=[])
+        m = ctx.driver.call("c07.epoch", data=data, bases=bases, posB=B_m, negB=neg_m, perm=perm, negIdx=[])
         merr = m["prep"].get("error") or m["out"].get("error")
         # malformed input is outside the property's quantifier (N >= 1, batch sizes >= 1, a reference-basis row, bases of the data's
         # length): which exception is raised is not constrained by the property text -> informational counter, no verdict
@@ -468,7 +563,7 @@ def one_call(ctx, case, st, kind, run, r_idx, state):
         if len(eps) > 6 and e_i not in (0, 1, len(eps) // 2, len(eps) - 1):
             continue  # long default runs: the model is compared on 4 epochs, the effect oracles ran on every epoch
         c2 = {**case, "epoch": e_i}
-        m = ctx.driver.call("c07.epoch", data=data, bases=bases, posB=B, negB=neg, perm=ep["perm"], negIdx=ep["negIdx"])
+        m = ctx.driver.call("c07.epoch", data=data, bases=bases, posB=B_m, negB=neg_m, perm=ep["perm"], negIdx=ep["negIdx"])
         mo = m["out"]
         if "error" in mo or "error" in m["prep"]:
             ctx.point("model error on a run the implementation completed", "property", None, mo.get("error") or m["prep"].get("error"), c2,
@@ -476,11 +571,12 @@ def one_call(ctx, case, st, kind, run, r_idx, state):
             continue
         impl_b = [{"pos": p, "neg": ng, "bases": bb} for p, ng, bb in ep["batches"]]
         ctx.point("batches", "property", impl_b, mo["batches"], c2, exact=True, sig=f"{sig}/batches",
-                  theorem="C07_fit_epoch (= C07_partition, C07_own_basis, C07_sizes, C07_negative composed with C07_fit_batches, C07_refbasis)")
+                  theorem="C07_fit_epoch (= C07_partition, C07_own_basis, C07_sizes, C07_negative composed with C07_fit_batches, C07_refbasis); "
+                          "C07_positional_call (batch sizes = the values at the documented positions of the call)")
         ctx.point("num_batches", "property", len(impl_b), m["prep"]["numBatches"], c2, exact=True, sig=f"{sig}/num-batches", theorem="C07_sizes")
         ctx.point("randint request", "aux", ep["randint"], mo["randint"], c2, exact=True, sig=f"{sig}/randint")
         ctx.point("randperm N", "aux", ep["permN"], len(m["prep"]["train"]), c2, exact=True, sig=f"{sig}/randperm")
-        mh = ctx.driver.call("c07.heap", data=data, bases=bases, posB=B, negB=neg, perm=ep["perm"], negIdx=ep["negIdx"])
+        mh = ctx.driver.call("c07.heap", data=data, bases=bases, posB=B_m, negB=neg_m, perm=ep["perm"], negIdx=ep["negIdx"])
         if "error" not in mh:
             mkeys = [k for r in mh["refs"] for k in (("p", r["pos"][0]), ("n", r["neg"][0])) + ((("b", r["bases"][0]),) if r["bases"] else ())]
             ikeys = [k for s in ep["storages"] for k in (("p", s[0]), ("n", s[1])) + ((("b", s[2]),) if s[2] else ())]
@@ -571,19 +667,41 @@ FORMS = ["tensor_f64", "tensor_f32", "tensor_i64", "tensor_u8", "ndarray_f64", "
 BASES_FORMS = ["c", "c", "fortran", "strided"]
 
 
-def gen_data(rng, kind, n, N, force_z=True):
+USER_LETTERS = ["H", "K", "z", "x", "S", "I", "Zh", "ZZ", "Xq", "zz"]  # names a user may register next to X / Y / Z (create_dict(**{name: matrix}))
+
+
+def gen_letters(rng):
+    names = rng.sample(USER_LETTERS, rng.choice([1, 1, 2, 3]))
+    return [{"name": nm, "theta": round(rng.uniform(0.2, 1.3), 3), "phi": round(rng.uniform(0.0, 3.0), 3)} for nm in names]
+
+
+def gen_data(rng, kind, n, N, force_z=True, letters=None):
     data = [[rng.randint(0, 1) for _ in range(n)] for _ in range(N)]
     if N >= 2 and rng.random() < 0.7:  # forced duplicate rows
         data[rng.randrange(N)] = list(data[rng.randrange(N)])
     bases = None
     if kind != "pos":
-        bases = [[rng.choice("XYZZ") for _ in range(n)] for _ in range(N)]
+        names = [L["name"] for L in (letters or [])]
+        alphabet = list("XYZZ") + names * 2
+        bases = [[rng.choice(alphabet) for _ in range(n)] for _ in range(N)]
+        zi = None
         if force_z:
-            bases[rng.randrange(N)] = ["Z"] * n
+            zi = rng.randrange(N)
+            bases[zi] = ["Z"] * n
         else:
             for b in bases:
                 if all(c == "Z" for c in b):
-                    b[rng.randrange(n)] = rng.choice("XY")
+                    b[rng.randrange(n)] = rng.choice(["X", "Y"] + names)
+        if names and N >= 2:
+            # a row measured in the reference basis on every site BUT ONE, that one in a user-registered basis: not a reference-basis row.
+            # Its outcome is made different from the outcomes of the all-Z rows when possible, so that it is recognisable in a batch.
+            ri = rng.choice([i for i in range(N) if i != zi])
+            bases[ri] = ["Z"] * n
+            bases[ri][rng.randrange(n)] = rng.choice(names)
+            zout = {tuple(d) for d, b in zip(data, bases) if all(c == "Z" for c in b)}
+            free = [list(t) for t in ([(k >> j) & 1 for j in range(n)] for k in range(2 ** n)) if tuple(t) not in zout]
+            if free:
+                data[ri] = rng.choice(free)
     return data, bases
 
 
@@ -594,16 +712,28 @@ def other_neg(rng, B, N=None):
     return rng.choice([x for x in cand if x != B and x >= 1])
 
 
-def gen_run(rng, kind, n, N, B, negmode):
+def gen_run(rng, kind, n, N, B, negmode, letters=None, npos=None):
     neg = None if negmode == "None" else (B if negmode == "B" else other_neg(rng, B, N))
     if negmode == "None" and rng.random() < 0.15:
         neg = 0  # Python falsy: also selects the default
-    data, bases = gen_data(rng, kind, n, N)
-    return {"N": N, "B": B, "neg": neg, "epochs": rng.choice([1, 2, 2, 3]), "form": rng.choice(FORMS), "data": data, "bases": bases,
-            "bases_form": rng.choice(BASES_FORMS)}
+    data, bases = gen_data(rng, kind, n, N, letters=letters)
+    run = {"N": N, "B": B, "neg": neg, "epochs": rng.choice([1, 2, 2, 3]), "form": rng.choice(FORMS), "data": data, "bases": bases,
+           "bases_form": rng.choice(BASES_FORMS)}
+    # call form: how many leading documented parameters are given positionally (1 = data only); with a positional call the integer
+    # arguments are made pairwise different where possible (so that no two documented positions can be exchanged unnoticed)
+    nparams = len(DOC_ORDER[kind != "pos"])
+    if npos is None:
+        npos = 1 if rng.random() < 0.5 else rng.randint(2, nparams)
+    run["npos"] = npos
+    if npos > 1:
+        run["start"] = rng.choice([1, 1, 2, 3])
+        last = run["start"] + run["epochs"] - 1
+        taken = {last, B, neg if neg else -1, run["start"]}
+        run["k"] = next((k for k in rng.sample([0, 1, 2, 3], 4) if k not in taken), 1)
+    return run
 
 
-def gen_session(rng, kind, n):
+def gen_session(rng, kind, n, letters=None):
     """2..3 consecutive calls on one object: a new measurement run of the same shape with the same / an edited / a new bases
     object, other batch sizes, sometimes another N"""
     N = rng.randint(1, 9)
@@ -612,7 +742,7 @@ def gen_session(rng, kind, n):
         if r and rng.random() < 0.25:
             N = rng.randint(1, 9)
         B = rng.randint(1, N + 2)
-        run = gen_run(rng, kind, n, N, B, rng.choice(["None", "B", "other", "other"]))
+        run = gen_run(rng, kind, n, N, B, rng.choice(["None", "B", "other", "other"]), letters=letters)
         if r:
             prev = runs[-1]
             same_shape = prev["N"] == N
@@ -643,7 +773,18 @@ def gen_cases(ctx, thorough):
             kinds = ["pos", "cplx", "dens"] if thorough else ["pos", rng.choice(["cplx", "dens"])]
             for kind in kinds:
                 n = rng.choice([2, 2, 3]) if kind != "dens" else 2
-                yield ("fit", {"kind": kind, "n": n, "runs": [gen_run(rng, kind, n, N, B, negmode)], "dseed": rng.randrange(1 << 30)})
+                letters = gen_letters(rng) if kind != "pos" and rng.random() < 0.4 else None
+                yield ("fit", {"kind": kind, "n": n, "runs": [gen_run(rng, kind, n, N, B, negmode, letters=letters)], "dseed": rng.randrange(1 << 30),
+                               "letters": letters})
+    # every positional call form: for each state type, the first j documented parameters given positionally, j = 2 .. all of them
+    for kind in ("pos", "cplx", "dens"):
+        for j in range(2, len(DOC_ORDER[kind != "pos"]) + 1):
+            for _ in range(3 if thorough else 1):
+                N = rng.randint(3, 9)
+                B = rng.randint(1, N + 1)
+                letters = gen_letters(rng) if kind != "pos" and rng.random() < 0.3 else None
+                yield ("fit", {"kind": kind, "n": 2, "runs": [gen_run(rng, kind, 2, N, B, rng.choice(["B", "other", "other", "None"]), letters=letters, npos=j)],
+                               "dseed": rng.randrange(1 << 30), "letters": letters})
     # the documented default call form on a large data set: fit(data) -> pos_batch_size = 100, neg_batch_size = None, 100 epochs (float ceil(N / 100));
     # N = 1000 (N = mB) and, thorough, N = 1037 (N = mB + r) and a complex state with bases
     big = [("pos", 1000)] + ([("pos", 1037), ("cplx", 250)] if thorough else [])
@@ -657,12 +798,13 @@ def gen_cases(ctx, thorough):
     for i in range(500 if thorough else 60):
         kind = ["cplx", "dens", "pos"][i % 3] if i % 4 else rng.choice(["cplx", "dens"])
         n = rng.choice([2, 3, 3]) if kind != "dens" else 2
-        yield ("fit", {"kind": kind, "n": n, "runs": gen_session(rng, kind, n), "dseed": rng.randrange(1 << 30)})
+        letters = gen_letters(rng) if kind != "pos" and rng.random() < 0.4 else None
+        yield ("fit", {"kind": kind, "n": n, "runs": gen_session(rng, kind, n, letters), "dseed": rng.randrange(1 << 30), "letters": letters})
     # direct calls with arbitrary num_batches (zip truncation) + extract_refbasis
     for _ in range(120 if thorough else 30):
         kind = rng.choice(["pos", "cplx", "dens"])
         n, N, B = 2, rng.randint(1, 9), rng.randint(1, 5)
-        data, bases = gen_data(rng, kind, n, N)
+        data, bases = gen_data(rng, kind, n, N, letters=(gen_letters(rng) if rng.random() < 0.5 else None))
         negB = rng.choice([B, B, other_neg(rng, B)])
         nb = max(0, -(-N // B) + rng.choice([-2, -1, 0, 0, 1, 2]))
         yield ("direct", {"kind": kind, "n": n, "N": N, "B": B, "negB": negB, "nb": nb, "data": data, "bases": bases,
